@@ -53,6 +53,8 @@ val fold_left : ('a1 -> 'a2 -> 'a1) -> 'a2 list -> 'a1 -> 'a1
 
 val existsb : ('a1 -> bool) -> 'a1 list -> bool
 
+val forallb : ('a1 -> bool) -> 'a1 list -> bool
+
 val firstn : nat -> 'a1 list -> 'a1 list
 
 val skipn : nat -> 'a1 list -> 'a1 list
@@ -919,3 +921,45 @@ val count_triple : rblock -> (n * n) * n
 val itemcount_blocks : rblock list -> ((n * n) * n) list
 
 val itemcount_total : rblock list -> (n * n) * n
+
+val exp_q : val0 -> val0
+
+val exp_rr : n -> val0 -> val0
+
+val exp_qsec : n -> n -> val0 option -> val0 option
+
+val exp_rrsec : n -> n -> n -> val0 option -> val0 option
+
+val sigb : bparams -> n -> val0 option -> val0 option
+
+val exp_qr : bparams -> val0 option list -> val0 option list
+
+val exp_mm : val0 option list -> val0 option list
+
+val exp_aec : val0 option list -> n -> val0
+
+val tps_of : blk -> z
+
+val new_qr : bparams -> val0 option list -> val0 list
+
+val new_mm : bparams -> val0 option list -> val0 list
+
+val log_qr : exporter -> xop list -> val0 list
+
+val log_mm : exporter -> xop list -> val0 list
+
+val has_tyb : ty -> val0 -> bool
+
+val fields_tyb : bool -> fields -> val0 option list -> bool
+
+val typed_blkb : blk -> bool
+
+val typed_xb : exporter -> bool
+
+val good_timeb : z -> val0 option -> bool
+
+val hn_next : exporter -> n -> n
+
+val adm1b : exporter -> n -> xop -> bool
+
+val admb : exporter -> n -> xop list -> bool
